@@ -10,7 +10,7 @@ import inspect
 import itertools
 
 from pyvc import values as V
-from pyvc.unit import Unit, U, Flag, register
+from pyvc.unit import Unit, U, Flag, Bytes, register
 from spec import cdb_layouts as L
 from spec.stubs.world import World
 from . import common as C
@@ -58,7 +58,8 @@ class RecordingDevice:
 
     __pyvc_trusted__ = True
 
-    def __init__(self, opcodes, world, fails=False, fill=0):
+    def __init__(self, opcodes, world, fails=False, fill=0, resp=None):
+        self.resp = resp  # the first bytes of what the device writes into the data-in buffer (an input of the unit)
         self.opcodes = opcodes
         self.devicetype = None
         self.world = world
@@ -71,28 +72,40 @@ class RecordingDevice:
         self.world.trace.append(("device.execute", cmd, en_raw_sense, cmd.cdb, cmd.datain, cmd.dataout))
         if self.fails:
             raise self.error
-        havoc_buffer(cmd.datain, self.fill, self.world)
+        havoc_buffer(cmd.datain, self.fill, self.world, self.resp)
 
     def close(self):
         self.world.trace.append(("device.close", self))
 
 
-def havoc_buffer(buf, fill, world):
-    """the device overwrites the data-in buffer in place: arbitrary contents (symbolic), or `fill` natively"""
+def havoc_buffer(buf, fill, world, resp=None):
+    """the device overwrites the data-in buffer in place: arbitrary contents.  Symbolically every byte is a fresh
+    unknown, except that the first len(resp) bytes of the FIRST response are the unit's input `resp` (so that a
+    counter-model determines them); natively the buffer gets resp followed by `fill`"""
+    first = getattr(world, "counter", 0) == 0
+    head = list(resp) if (resp is not None and first) else []
     if isinstance(buf, V.SBytes):
         world.counter = getattr(world, "counter", 0) + 1
         import z3
 
-        buf.cells[:] = [V.SInt(z3.ZeroExt(V.W - 8, z3.BitVec("dev%d[%d]" % (world.counter, i), 8)), 0, 255) for i in range(len(buf.cells))]
+        buf.cells[:] = [head[i] if i < len(head) else V.SInt(z3.ZeroExt(V.W - 8, z3.BitVec("dev%d[%d]" % (world.counter, i), 8)), 0, 255) for i in range(len(buf.cells))]
     elif isinstance(buf, V.SZeros):
         import z3
 
         world.counter = getattr(world, "counter", 0) + 1
         arr = z3.Array("dev%d" % world.counter, z3.IntSort(), z3.BitVecSort(8))
-        buf.havoc = lambda idx: V.SInt(z3.ZeroExt(V.W - 8, z3.Select(arr, V.to_intsort(idx))), 0, 255)
+
+        def cell(idx):
+            r = V.SInt(z3.ZeroExt(V.W - 8, z3.Select(arr, V.to_intsort(idx))), 0, 255)
+            for i in range(len(head) - 1, -1, -1):
+                r = V.ite(V.compare("==", idx, i), head[i], r)
+            return r
+
+        buf.havoc = cell
     elif isinstance(buf, bytearray):
+        world.counter = getattr(world, "counter", 0) + 1
         for i in range(len(buf)):
-            buf[i] = fill & 0xFF
+            buf[i] = (head[i] if i < len(head) else fill) & 0xFF
 
 
 def unmarshall_contracts(world):
@@ -273,6 +286,7 @@ class FacadeUnit(Unit):
             if p in case["given"]:
                 d[p] = U(w)
         d["fill"] = U(8)
+        d["resp"] = Bytes(12, mutable=False)
         return d
 
     def structured_args(self, case, a):
@@ -286,7 +300,7 @@ class FacadeUnit(Unit):
         w = self.world if X.symbolic else World()
         self.world = w
         del w.trace[:]
-        dev = RecordingDevice(C.table(case["set"]), w, fails=case["fails"], fill=a.get("fill", 0))
+        dev = RecordingDevice(C.table(case["set"]), w, fails=case["fails"], fill=a.get("fill", 0), resp=a.get("resp"))
         self.dev = dev
         s = object.__new__(S)
         s.device = dev
